@@ -1,6 +1,6 @@
 (* C19 — proofs about Model/Introspect.v *)
-From Coq Require Import List String Ascii ZArith Bool Lia.
-From AC Require Import Base.Sexp Base.Strs Base.Json Model.SchemaSrc Model.Loader Model.Introspect.
+From Coq Require Import List String Ascii ZArith Bool Lia Permutation.
+From AC Require Import Base.Sexp Base.Strs Base.Json Model.SchemaSrc Model.Loader Model.Introspect Proofs.LoaderP.
 Import ListNotations.
 Local Open Scope string_scope.
 Local Open Scope list_scope.
@@ -327,3 +327,25 @@ Proof.
   { destruct (nullable (if_type f)); simpl in *; [reflexivity|]. rewrite B1. reflexivity. }
   rewrite E. destruct (negb (nullable (if_type f))); cbn [map]; rewrite (IH A2 B2); reflexivity.
 Qed.
+
+(* ------------------------------------------------------------------ loader + generator *)
+Lemma inputs_of_perm tm tm' : Permutation tm' tm -> Permutation (inputs_of tm') (inputs_of tm).
+Proof. intro H. unfold inputs_of. apply Permutation_flat_map. exact H. Qed.
+
+Lemma gen_inputs_perm fx s s' : Permutation s' s -> Permutation (gen_inputs fx s') (gen_inputs fx s).
+Proof. intro H. unfold gen_inputs. apply Permutation_map. exact H. Qed.
+
+Theorem split_same_input_classes fx gx tree ds :
+  NoDup (type_names ds) -> has_ext ds = false ->
+  Permutation (flat_map defs_of (filter (selected fx) tree)) ds ->
+  Permutation (gen_inputs gx (inputs_of (type_map (loaded_defs fx tree))))
+              (gen_inputs gx (inputs_of (type_map ds))).
+Proof.
+  intros Hn He Hp. apply gen_inputs_perm, inputs_of_perm, type_map_perm_noext; try assumption.
+  apply split_permutation. exact Hp.
+Qed.
+
+Theorem introspection_inputs_partial_nodefaults s :
+  wf_sdl s = true -> no_deprecated s = true -> no_defaults s = true ->
+  gen_inputs false (via_introspection s) = gen_inputs false s.
+Proof. intros W D N. apply introspection_inputs_partial; auto. apply no_defaults_harmless. exact N. Qed.
